@@ -4,6 +4,7 @@ import (
 	"context"
 	"errors"
 	"io"
+	"log/slog"
 	"net"
 	"time"
 
@@ -119,8 +120,14 @@ func (r *vReader) Read(p []byte) (int, error) {
 	return n, nil
 }
 
+// vLogger: a logger that discards (natively); logging is a no-op in the engine.
+func vLogger() *slog.Logger {
+	return slog.New(slog.NewTextHandler(io.Discard, nil))
+}
+
 func vNewClient(conn net.Conn, queueSize int) *client {
 	return &client{
+		logger:       vLogger(),
 		addr:         "rs:1",
 		ctype:        RegionClient,
 		rpcQueueSize: queueSize,
